@@ -204,6 +204,9 @@ Definition op_prog (mods : list name) (o : op) : list aop :=
   | OIdent c => AAcq :: reset_ops mods c ++ [ARel None]
   | ODisconnect c => reset_ops mods c
   | OEmit _ _ _ => []
+  (* activate / deactivate: through handle_request (lock taken and released), no operation on the subscription table of
+     the log handler; only requests that are accepted are used in threads of concurrent cases *)
+  | OActivate _ _ | ODeactivate _ _ => [AAcq; ARel None]
   end.
 
 Definition conn_prog (mods : list name) (ops : list op) : list aop := flat_map (op_prog mods) ops.
